@@ -250,6 +250,24 @@ pub fn set_options(
         opt.file_decoration_style = "none".to_string();
         opt.commit_decoration_style = "none".to_string();
         opt.hunk_header_decoration_style = "none".to_string();
+        // A decoration can also be requested by the words 'box', 'underline' and 'overline'
+        // inside the element's own style string.
+        for style in [
+            &mut opt.commit_style,
+            &mut opt.file_style,
+            &mut opt.hunk_header_style,
+        ] {
+            *style = style
+                .split_whitespace()
+                .filter(|word| {
+                    !matches!(
+                        word.to_lowercase().trim_matches(|c| c == '"' || c == '\''),
+                        "box" | "underline" | "overline"
+                    )
+                })
+                .collect::<Vec<_>>()
+                .join(" ");
+        }
     }
 }
 
